@@ -192,6 +192,30 @@ def scanChannel (c : Chan) (now : Int) : Scan :=
   let s2 := scanDeferred s1.chan now
   { chan := s2.chan, dirty := s1.dirty || s2.dirty, released := s1.released ++ s2.released }
 
+/-! ### histories -/
+
+/-- one API call on the channel (`maxMsgTimeout` is the daemon option, fixed for a history) -/
+inductive Op
+  | inflight (now : Int) (id : Nat) (client : Int) (timeout : Int)
+  | touch (now : Int) (client : Int) (id : Nat) (msgTimeout : Int)
+  | finish (client : Int) (id : Nat)
+  | requeue (now : Int) (client : Int) (id : Nat) (timeout : Int)
+  | defer (now : Int) (id : Nat) (timeout : Int)
+  | scanIf (t : Int)
+  | scanDef (t : Int)
+deriving Repr
+
+def step (maxMsgTimeout : Int) (c : Chan) : Op → Chan
+  | .inflight now id client timeout => (startInFlight c now id client timeout).1
+  | .touch now client id mt => (touch c now client id mt maxMsgTimeout).1
+  | .finish client id => (finish c client id).1
+  | .requeue now client id timeout => (requeue c now client id timeout).1
+  | .defer now id timeout => (startDeferred c now id timeout).1
+  | .scanIf t => (scanInFlight c t).chan
+  | .scanDef t => (scanDeferred c t).chan
+
+def run (maxMsgTimeout : Int) (c : Chan) (ops : List Op) : Chan := ops.foldl (step maxMsgTimeout) c
+
 /-! ### UniqRands (internal/util/rand.go) -/
 
 /-- the second loop: `for i := 0; i < quantity; i++ { j := rand.Int()%maxval + i; swap(i, j); maxval-- }`
